@@ -456,9 +456,18 @@ class ProcessMessageData(Contract, VersionModes):
         accept = self.expect
         I.oblige(self.name("rejected_batch_delivers_none_of_its_members"),
                  z3.Implies(z3.Not(accept), z3.Length(delivered) == 0), watch=watch)
-        err_text = ST.json_text
-        I.oblige(self.name("rejected_batch_is_answered_with_at_most_one_write"),
-                 z3.Implies(z3.Not(accept), z3.Length(writes) <= 1), watch=watch)
+        attempted = Val.items(_E.gfield(I, self.stdin, "attempted"))
+        dumped = I.ghost.get("last_dumped")
+        if dumped is not None:
+            err = z3.Select(Val.dvals(dumped), z3.StringVal("error"))
+            code = z3.Select(Val.dvals(err), z3.StringVal("code"))
+            frame = V.VBytes(P.utf8_enc(z3.Concat(ST.json_text(dumped), ST.NL)))
+            single_error = z3.And(z3.Length(attempted) == 1, attempted[0] == frame, V.is_dict(dumped), V.is_dict(err),
+                                  code == V.VInt(-32600), z3.Or(z3.Length(writes) == 0, writes == attempted))
+        else:
+            single_error = z3.BoolVal(False)
+        I.oblige(self.name("rejected_batch_is_answered_with_a_single_invalid_request_error"),
+                 z3.Implies(z3.Not(accept), single_error), watch=watch)
         I.oblige(self.name("accepted_batch_writes_nothing_back"), z3.Implies(accept, z3.Length(writes) == 0), watch=watch)
         if not I.ghost.get("route_failed"):
             I.oblige(self.name("accepted_batch_delivers_every_valid_member_in_order"),
@@ -484,6 +493,9 @@ def batch_loop_inv(I, phase):
         I.assume(z3.Extract(items, 0, z3.Length(items)) == items)
         # members of a parsed JSON document are themselves serialisable (codec round trip, C17)
         I.assume(z3.Implies(i < z3.Length(items), ST.json_serialisable(x)))
+        # quantifier of the property: members are JSON objects or scalars (a nested array inside a batch is outside
+        # it; natively such a member is parsed as a batch of its own and delivered as a list - noted in DESIGN.md)
+        I.assume(z3.Implies(i < z3.Length(items), z3.Not(V.is_list(x))))
     cl = [(f"{name}.nothing_written_back", z3.Length(writes) == 0)]
     if not I.ghost.get("route_failed"):
         cl.append((f"{name}.delivered_are_the_valid_members_so_far_in_order", delivered == E2(z3.Extract(items, 0, i))))
@@ -511,6 +523,10 @@ class SendErrorResponse(Contract):
         self.client = ST.make_client(I, process=proc)
         err = I.fresh("error_response")
         I.assume(z3.And(V.is_dict(err), Val.dsize(err) >= 0))
+        inner = z3.Select(Val.dvals(err), z3.StringVal("error"))
+        # shape of the only argument the library passes: {"jsonrpc", "id", "error": {...}}
+        I.assume(z3.Implies(z3.Select(Val.dkeys(err), z3.StringVal("error")),
+                            z3.And(V.is_dict(inner), Val.dsize(inner) >= 0, Val.dsize(err) >= 1)))
         self.err = err
         return [self.client, err], {}
 
@@ -562,7 +578,7 @@ def _canaries(self):
         Canary("rejection error written twice", STDIO,
                "            await self._send_error_response(error_response)\n            return\n",
                "            await self._send_error_response(error_response)\n            await self._send_error_response(error_response)\n            return\n",
-               "at_most_one_write"),
+               "single_invalid_request_error"),
     ]
 
 
